@@ -30,7 +30,8 @@ THEOREMS = [
     "Optyx.Props.C20.hook_restored",
     "Optyx.Props.C20.reclimit_unchanged",
     "Optyx.Props.C20.outcome_spec",
-    "Optyx.Props.C20.exception_in_solver_never_propagates",
+    "Optyx.Props.C20.exception_in_solver_gives_failed",
+    "Optyx.Props.C20.base_exception_propagates",
     "Optyx.Props.C20.fault_preserves_cache_validity",
     "Optyx.Props.C20.next_solve_unaffected",
 ]
